@@ -20,6 +20,8 @@ package parser
 //@   ensures  recv.tokens == old(recv.tokens)
 //@   ensures  recv.positions == old(recv.positions)
 //@   ensures  recv.strict == old(recv.strict) && recv.dialect == old(recv.dialect)
+//@   ensures  @C13 implies(err != nil, structured(err) || isctx(err))
+//@   ensures  @C11 implies(err != nil && causectx(err), isctx(err))
 
 // Entry points. Per-call state is (re)assigned before the statement loop reads
 // it, so a result never depends on what the instance did before (C08); the
@@ -27,18 +29,24 @@ package parser
 // same on every exit, including error and cancellation exits (C08, C11).
 
 //@ func (*Parser).Parse
+//@   ensures  @C13 implies(err != nil, structured(err) || isctx(err))
+//@   ensures  @C11 implies(err != nil && causectx(err), isctx(err))
 //@   ensures p.depth == old(p.depth) && p.ctx == old(p.ctx)
 //@   ensures p.strict == old(p.strict) && p.dialect == old(p.dialect)
 //@   ensures p.positions == nil
 //@   loop 1 invariant 0 <= p.currentPos && p.positions == nil && p.tokens == tokens
 
 //@ func (*Parser).ParseContext
+//@   ensures  @C13 implies(err != nil, structured(err) || isctx(err))
+//@   ensures  @C11 implies(err != nil && causectx(err), isctx(err))
 //@   ensures p.depth == old(p.depth)
 //@   ensures implies(old(p.ctx) == nil, p.ctx == nil)
 //@   ensures p.strict == old(p.strict) && p.dialect == old(p.dialect)
 //@   loop 1 invariant 0 <= p.currentPos && p.positions == nil && p.tokens == tokens && p.ctx == ctx
 
 //@ func (*Parser).ParseWithPositions
+//@   ensures  @C13 implies(err != nil, structured(err) || isctx(err))
+//@   ensures  @C11 implies(err != nil && causectx(err), isctx(err))
 //@   ensures p.depth == old(p.depth) && p.ctx == old(p.ctx)
 //@   ensures p.strict == old(p.strict) && p.dialect == old(p.dialect)
 //@   loop 1 invariant 0 <= p.currentPos && p.positions == old(result.PositionMapping) && p.tokens == old(result.Tokens)
@@ -53,13 +61,25 @@ package parser
 //@   ensures p.depth == old(p.depth) && p.ctx == old(p.ctx) && p.strict == old(p.strict) && p.dialect == old(p.dialect)
 
 //@ func (*Parser).ParseFromModelTokens
+//@   ensures  @C13 implies(err != nil, structured(err) || isctx(err))
+//@   ensures  @C11 implies(err != nil && causectx(err), isctx(err))
 //@   ensures p.depth == old(p.depth) && p.ctx == old(p.ctx) && p.strict == old(p.strict) && p.dialect == old(p.dialect)
 
 //@ func (*Parser).ParseContextFromModelTokens
+//@   ensures  @C13 implies(err != nil, structured(err) || isctx(err))
+//@   ensures  @C11 implies(err != nil && causectx(err), isctx(err))
 //@   ensures p.depth == old(p.depth) && p.strict == old(p.strict) && p.dialect == old(p.dialect)
 
 //@ func (*Parser).ParseFromModelTokensWithPositions
+//@   ensures  @C13 implies(err != nil, structured(err) || isctx(err))
+//@   ensures  @C11 implies(err != nil && causectx(err), isctx(err))
 //@   ensures p.depth == old(p.depth) && p.ctx == old(p.ctx) && p.strict == old(p.strict) && p.dialect == old(p.dialect)
 
 //@ func (*Parser).ParseWithRecoveryFromModelTokens
 //@   ensures p.depth == old(p.depth) && p.ctx == old(p.ctx) && p.strict == old(p.strict) && p.dialect == old(p.dialect)
+
+// Every other function of the package that returns an error: structured and classifiable (C13),
+// cancellation reported as such (C11).
+//@ func *
+//@   ensures  @C13 implies(err != nil, structured(err) || isctx(err))
+//@   ensures  @C11 implies(err != nil && causectx(err), isctx(err))
